@@ -168,6 +168,14 @@ impl KnownFindings {
     }
 }
 
+static KNOWN: std::sync::OnceLock<KnownFindings> = std::sync::OnceLock::new();
+
+/// True when `known_findings.json` lists `sig` as a *known* (unrepaired) finding of `property`.
+/// Oracles use it to set a listed finding aside by construction and keep checking behind it.
+pub fn known_active(property: &str, sig: &str) -> bool {
+    KNOWN.get_or_init(KnownFindings::load).is_known(property, sig).is_some()
+}
+
 #[derive(Debug, Default, Clone)]
 struct CheckStats {
     evaluations: u64,
